@@ -43,7 +43,7 @@ func runC36(c *C) {
 		replayInput(c, raw)
 	}
 
-	// 1. the refuted obligation's witness (DESIGN finding 11) — every run
+	// 1. regression witness of DESIGN finding 11 — every run
 	witnessFinding11(c)
 
 	// 2. stream A
